@@ -60,7 +60,7 @@ func openGuard(fn func() (*txfile.File, error)) (f *txfile.File, res string) {
 		return r.f, classifyOpen(r.err)
 	case <-pan:
 		return nil, "panic"
-	case <-time.After(5 * time.Second):
+	case <-time.After(20 * time.Second):
 		return nil, "hang"
 	}
 }
@@ -84,7 +84,7 @@ func (p *pathReplayer) step(act, h, want string) core.Event {
 			f, err := txfile.Open(p.path, 0600, o)
 			ch <- openRes{f, err}
 		}()
-		wait := 5 * time.Second
+		wait := 20 * time.Second
 		if want == "held" {
 			wait = 40 * time.Millisecond // it must still be blocked after the settle time
 		}
@@ -118,7 +118,7 @@ func (p *pathReplayer) step(act, h, want string) core.Event {
 			} else {
 				ev["res"] = classifyOpen(r.err)
 			}
-		case <-time.After(5 * time.Second):
+		case <-time.After(20 * time.Second):
 			ev["res"] = "hang"
 		}
 	case act == "Close":
@@ -129,7 +129,7 @@ func (p *pathReplayer) step(act, h, want string) core.Event {
 		select {
 		case <-done:
 			ev["res"] = "ok"
-		case <-time.After(5 * time.Second):
+		case <-time.After(20 * time.Second):
 			ev["res"] = "hang"
 		}
 	case strings.HasPrefix(act, "Bad-"):
@@ -195,7 +195,7 @@ func (p *pathReplayer) cleanup() {
 				if r.f != nil {
 					r.f.Close()
 				}
-			case <-time.After(10 * time.Second):
+			case <-time.After(30 * time.Second):
 			}
 		}(ch)
 	}
